@@ -13,7 +13,12 @@ for line in open(os.path.join(V, "build", "seeded_results.jsonl")):
     r = json.loads(line)
     key = os.path.basename(r["dir"]) if "/seed2" not in r["dir"] and "r2" not in r["dir"] else "R2-" + os.path.basename(r["dir"])
     old = res.get(key, {})
-    old.update(r)          # later runs (e.g. additional --checks) refine earlier ones
+    hist = old.get("_hist", {})
+    for k, v in r.items():
+        if k.startswith("check_"):
+            hist.setdefault(k[6:], []).append(v["rc"])
+    old.update(r)          # later runs (e.g. additional --checks, re-evaluation after a check was strengthened) refine earlier ones
+    old["_hist"] = hist
     res[key] = old
 rows = []
 for key in sorted(res):
@@ -28,6 +33,9 @@ for key in sorted(res):
     if not confirmed:
         note = "not kept: " + ("patch does not apply" if not r.get("applies") else "pinned suite fails with it" if r.get("suite_ok") is False else
                                "demonstration does not separate the trees" if "suite_ok" in r else "not confirmed")
+    first_missed = sorted(c for c, h in r.get("_hist", {}).items() if h and h[0] != 1 and h[-1] == 1)
+    if first_missed:
+        note = (note + "; " if note else "") + "first run of %s did not report it; the check was strengthened (see 0.6)" % ", ".join(first_missed)
     rows.append((key, r["property"], meta.get("summary", "")[:160].replace("|", "/"), meta.get("needs", "")[:120].replace("|", "/"), caught, missed, broken, note))
     if confirmed:
         d = os.path.join(V, "seeded", key)
@@ -39,6 +47,7 @@ for key in sorted(res):
                                 "pinned suite rebuilt and run on the mutated tree (%s); ./check <id> --tier quick with VERIF_REPO=<scratch tree>"
                                 % (r.get("demo_mutated_rc"), r.get("demo_clean_rc"), "Status: SUCCESS" if r.get("suite_ok") else "FAILED"))
         meta["detected_by"] = caught
+        meta["initially_missed_by"] = first_missed
         meta["missed_by"] = missed
         meta["first_violation"] = next((v["viol"][0] for c, v in checks.items() if v.get("viol")), "")[:400]
         json.dump(meta, open(os.path.join(d, "meta.json"), "w"), indent=1)
